@@ -203,6 +203,24 @@ def _gen_order(ctx, count, nmax):
     for p in ("0.95", "0.97725", "0.99"):
         for r in (1, 2, 5, 12):
             cases.append(("n", p, "0.90", None, r))
+    # both sides of the decision boundaries: c a hair above / below the confidence reached at an integer, so that
+    # the continuous root of the 'n' query lies within 1e-9 .. 1e-4 of an integer (a rounding of the root before
+    # the ceil, a tolerance in the scan of 'r' ... would flip the answer); TIE = 1e-9 keeps genuine float ties out
+    for _ in range(max(40, count // 8)):
+        p = _dec(rng, "p")
+        q = 1 - Fraction(p)
+        r = rng.randint(1, 3) if rng.random() < 0.6 else rng.randint(1, 12)
+        n0 = max(r, int(r / float(q) * rng.uniform(0.3, 2.5)))
+        n0 = min(n0, nmax)
+        cf = _conf_float(n0, r, q)
+        if not 1e-3 < cf < 1 - 1e-3:
+            continue
+        d = rng.choice([3e-9, 1e-8, 5e-8, 2.5e-7, 6e-7, 2e-6, 1e-5, 1e-4]) * rng.choice([-1, 1])
+        c = repr(cf + d)
+        if rng.random() < 0.7:
+            cases.append(("n", p, c, None, r))
+        else:
+            cases.append(("r", p, c, n0, None))
     for _ in range(count):
         which = rng.choice("rrnnc")
         p = _dec(rng, "p")
@@ -242,7 +260,10 @@ def _gen_k(ctx, count):
         p = p if p >= 0.5 else 1 - p
         c = float(_dec(rng, "c"))
         c = min(max(c, 0.02), 0.995)
-        n = rng.randint(2, 30) if rng.random() < 0.6 else rng.randint(30, 400)
+        u = rng.random()
+        # n >= 2 without an upper limit: a quarter of the cases are large samples (log-uniform up to 1e9), where a
+        # large-sample shortcut or a loss of accuracy of the non-central t quantile would show
+        n = rng.randint(2, 30) if u < 0.45 else rng.randint(30, 400) if u < 0.75 else int(10 ** rng.uniform(2.6, 9.0))
         out.append((p, c, n))
     return out
 
@@ -619,7 +640,7 @@ def _o_klimit(stats, p, c):
 
     out = []
     inp = {"kind": "klimit", "p": p, "c": c}
-    ns = [100, 1000, 10000, 100000, 1000000]
+    ns = [100, 1000, 10000, 100000, 1000000, 3000000, 10000000, 100000000]
     with warnings.catch_warnings():
         warnings.simplefilter("ignore")
         for name, z in (("ksingle", norm.ppf(p)), ("kdouble", norm.ppf((1 + p) / 2))):
@@ -635,7 +656,9 @@ def _o_klimit(stats, p, c):
             elif not np.all(np.diff(np.abs(d)) < 1e-9):
                 bad = "|k - z| does not decrease as n grows"
             elif not abs(d[-1]) <= 6.0 / math.sqrt(ns[-1]) * (1 + z):
-                bad = "k at n = 1e6 is not within O(1/sqrt n) of the normal quantile"
+                bad = "k at the largest n is not within O(1/sqrt n) of the normal quantile"
+            elif c < 0.5 and name == "ksingle" and not np.all(d[2:] < 1e-9):
+                bad = "one-sided factor lies above the normal quantile although c < 0.5"
             if bad:
                 out.append({"family": name + "-limit", "what": bad, "input": inp,
                             "observed": np.asarray(ks).tolist(), "required": "-> %r" % float(z)})
@@ -676,7 +699,8 @@ def search(ctx, hints):
         items.append({"kind": "consistency", "p": _dec(rng, "p"), "c": _dec(rng, "c"), "n": rng.randint(1, 600)})
     for p, c, n in _gen_k(ctx, ctx.pick(200, 2000)):
         items.append({"kind": "kfactor", "p": p, "c": c, "n": n})
-    for n in [2, 3, 5, 10, 21, 50, 200] + [rng.randint(2, 500) for _ in range(ctx.pick(4, 40))]:
+    for n in [2, 3, 5, 10, 21, 50, 200, 1000001, 3000000] + [rng.randint(2, 500) for _ in range(ctx.pick(4, 40))] \
+            + [int(10 ** rng.uniform(3, 8.5)) for _ in range(ctx.pick(3, 20))]:
         items.append({"kind": "kmono", "n": n})
     for p in (0.9, 0.95, 0.99, 0.99865):
         for c in (0.1, 0.5, 0.75, 0.9, 0.99):
